@@ -25,7 +25,7 @@ pub fn property() -> Property {
             },
             Part {
                 name: "random_occupancies",
-                quick: 400_000,
+                quick: 1_000_000,
                 thorough: 40_000_000,
                 single_shard: false, supplementary: true,
                 run: |cfg| {
